@@ -185,7 +185,8 @@ def oracle(sch, io):
     return uniq
 
 
-CORR_ARITY = {"UD": 4, "SDK": 4, "SAK": 4, "SJ": 4, "FN": 4, "UP": 5, "SDI": 5, "SAI": 5, "ED": 5, "EA": 5, "FS": 5}
+CORR_ARITY = {"UD": 4, "SDK": 4, "SAK": 4, "SJ": 4, "FN": 4, "UP": 5, "SDI": 5, "SAI": 5, "ED": 5, "EA": 5, "FS": 5,
+              "EDB": 4, "EEB": 4, "SEK": 4, "XDB": 3, "XEB": 3}
 
 
 def split_case(case):
@@ -368,8 +369,12 @@ def main(argv):
     c.cov["rule"] = ("a case = schema wiring (idx / fkc / casc) + a seeded history that leaves a populated consistent database (seeding creates, "
                      "random churn of the shared generator incl. cascades, child stores, link ops, failing transactions) + a list of raw corruptions "
                      "(unique index: missing / extra / wrong-target entry; set index: missing entry, missing key, extra entry, empty key, non-bucket key; "
-                     "fk: missing / extra back-reference, dangling reference; links: one-sided, dangling; genuine conflicts: duplicate unique value, nil "
-                     "in a non-nullable field) committed in a separate transaction; quick: random subsets of 0-8 corruptions; thorough additionally all "
+                     "fk: missing / extra back-reference, dangling reference, fk field re-pointed to another existing target - preferably one that never "
+                     "had a referrer, i.e. without a back-reference bucket; links: one-sided, dangling; whole buckets, each ABSENT and PRESENT-BUT-EMPTY: "
+                     "back-reference bucket of a target, link bucket of one side, set-field bucket of an entity, a set-index key bucket, the index bucket "
+                     "of a unique / set-index symbol (deleted + InitializeIndexes as on start-up, or emptied), an empty back-reference bucket on a target "
+                     "without referrers (neutral); genuine conflicts: duplicate unique value, nil "
+                     "in a non-nullable field) committed in a separate transaction; half of the draws uniform over the candidates, half uniform over the classes; quick: random subsets of 0-8 corruptions; thorough additionally all "
                      "subsets of <= 4 out of a pool of 8 corruptions (one per class first) on 50 states. Phases: check-only in a read-only and in a write "
                      "transaction, fix, re-check. Non-trivial: at least one corruption or at least one report; distinct by case text.")
     c.cov["report_kinds_seen"] = dict(kinds_seen)
